@@ -81,8 +81,8 @@ def int_to_alphabetic(num: int, reference: Optional[str] = None) -> str:
         try:
             alphabet = ALPHABET_CHARACTERS[reference]
         except KeyError:
-            msg = "formatting for language {!r} is not supported"
-            raise NotImplementedError(msg.format(reference))
+            # an unsupported language: the default language is used
+            alphabet = ALPHABET_CHARACTERS['en']
 
     elif reference.isdigit():
         for alphabet in OTHER_NUMBERS:
